@@ -248,6 +248,10 @@ def r17_4(ctx):
     src_names = set()
     for d in defs:
         src_names |= names_in(d.value)
+    if not defs:
+        # the deciding expression stands in the test itself (a temporary folded into it by asv/canon.py, or written so)
+        src_names |= names_in(dec.test)
+        defs = [ast.copy_location(ast.Assign(targets=[ast.Name(id="_children_test_", ctx=ast.Store())], value=dec.test), dec)]  # the test plays the role of the definition
     # provenance of the name set used
     only_filtered = False
     for nm in src_names:
